@@ -59,7 +59,7 @@ def main():
     demo = os.path.join(seed, "demo.cpp")
     head = open(demo).read().splitlines()[:20]
     first = next((l for l in head if "g++" in l), head[0] if head else "")
-    extra = " ".join(re.findall(r"(?<!\S)(-D\S+|-m(?!arch)\S+|-pthread|-l\S+|-Wl,\S+|-fno-\S+|-O[0-3s])", first))
+    extra = " ".join(re.findall(r"(?<!\S)(-D\S+|-m(?!arch)\S+|-pthread|-l\S+|-Wl,\S+|-f[a-z][a-z-]*(?:=\S+)?|-O[0-3s])", first))
     std = re.search(r"-std=(\S+)", first)
     std = std.group(1) if std else "c++14"
     if "-O" not in extra:
